@@ -315,9 +315,11 @@ func (n *Node) sampleVia(inc *shim.Inc, via uint64) *mon.Sample {
 	defer n.smu.Unlock()
 	floor := n.cl.M.TermFloor(n.ID)
 	lv := n.cl.M.LogVersion(n.ID)
+	sv := n.cl.M.StateVersion(n.ID)
 	s := shim.SampleOf(inc.Raft.VerifState())
 	s.Floor = floor
 	s.LV = lv
+	s.SV = sv
 	if inc.Dead() || s.State == "shutdown" {
 		return s
 	}
